@@ -38,7 +38,7 @@ LIFE = {
 STATS = re.compile(r"(\d+) states generated, (\d+) distinct states found")
 SCHED = re.compile(r'^<<"SCHED", "(.*)">>$')
 
-def parse_scheds(out):
+def parse_scheds(out, direct=False):
     scheds = []
     for line in out.splitlines():
         mm = SCHED.match(line.strip())
@@ -48,7 +48,7 @@ def parse_scheds(out):
                 evs = json.loads(js)
             except Exception:
                 continue
-            scheds.append([s for s in (ev_to_step(e) for e in evs) if s])
+            scheds.append([s for s in (ev_to_step(e, direct) for e in evs) if s])
     return scheds
 
 def tlc_design(name, props, workdir, timeout, workers=12, emit_rate=None, seed=1, focus="Edge", sample=None):
@@ -92,7 +92,7 @@ def tlc_live(name, workdir, timeout=1800):
         raise run.ToolError(f"liveness instance ML_{name}: TLC reports an error on the specification itself:\n" + p.stdout[-3000:])
     return int(st.group(1)), int(st.group(2))
 
-def ev_to_step(ev):
+def ev_to_step(ev, direct=False):
     t = ev["t"]
     def sel(c):
         # name the call by what it is for, not by the argument values the specification expects: a change of the
@@ -106,7 +106,9 @@ def ev_to_step(ev):
     if t == "deliver":
         return {"a": "deliver", "sel": sel(ev["c"]), "who": ev["who"]}
     if t == "paypart":
-        return {"a": "paypart", "sel": {"kind": "pay", "hash": ev["hash"]}, "orphan_ok": True}
+        # a part without a running pay command exists only in the provider instances (left over by an earlier attempt);
+        # in a lifecycle replay that has diverged, a paypart step without a running command is simply inapplicable
+        return {"a": "paypart", "sel": {"kind": "pay", "hash": ev["hash"]}, "orphan_ok": bool(direct)}
     if t == "call":
         return {"a": "wp", "hash": ev["hash"]} if ev["fn"] == "wp" else {"a": "paycall", "hash": ev["hash"], "inv": 1}
     if t == "partdone":
@@ -132,7 +134,7 @@ def schedules_from_tlc(name, workdir, rate, seed, timeout, limit, focus="Edge"):
                 evs = json.loads(js)
             except Exception:
                 continue
-            steps = [s for s in (ev_to_step(e) for e in evs) if s]
+            steps = [s for s in (ev_to_step(e, bool(models.MODELS[name].get("direct"))) for e in evs) if s]
             scheds.append(steps)
     rng = random.Random(seed)
     if len(scheds) > limit:
@@ -163,7 +165,7 @@ def build_jobs(pid, tier, seed, workdir):
             rate, frate = max(1, est_edges // 3000), 0    # the big instances are checked; only a thin sample is replayed
         g, d, out = tlc_design(name, models.ALLPROPS, workdir, 3000 if thorough else 900, workers=14, seed=seed, sample=(rate, frate))
         mstats[name] = {"generated": g, "distinct": d}
-        scheds = parse_scheds(out)
+        scheds = parse_scheds(out, direct=bool(m.get("direct")))
         cap = 100000 if spec.get("allrate") else int(per_model * (2.2 if frate else 1.2))
         if len(scheds) > cap:
             scheds = rng1.sample(scheds, cap)
